@@ -244,6 +244,17 @@ Definition poll_best_tip (T : tree) (src : oracle) (cl : client) (n : nat)
   | (Ok (Worse tip), n1) => (Ok (Worse tip, false), cl, [], n1)
   end.
 
+(** [k] successive polls (the source's answers, including which tip it reports as best, are indexed
+    by the request counter, so one oracle describes any sequence of tip changes between polls). *)
+Fixpoint poll_n (T : tree) (src : oracle) (cl : client) (n : nat) (k : nat) : client * list event * nat :=
+  match k with
+  | O => (cl, [], n)
+  | S k' =>
+    let '(_, cl1, log1, n1) := poll_best_tip T src cl n in
+    let '(cl2, log2, n2) := poll_n T src cl1 n1 k' in
+    (cl2, log1 ++ log2, n2)
+  end.
+
 (** * init.rs *)
 Record locator := { l_hash : Z; l_height : Z; l_prev : list (option Z) }.
 
@@ -373,7 +384,10 @@ Definition synchronize_listeners (T : tree) (src : oracle) (ls : list locator) (
   end.
 
 (** * A scripted source over the universe: truthful except at scripted request indices. *)
-Inductive fault := FT | FP | FS (y dh dw : Z) | FM | FH.
+(** [FS y dh dw]: answer as for block [y] with height/chainwork claims shifted; [FF dh dw]: answer for
+    the requested block itself with shifted claims; [FM]: corrupt the transaction list; [FH]: flip
+    full block / header only. *)
+Inductive fault := FT | FP | FS (y dh dw : Z) | FF (dh dw : Z) | FM | FH.
 
 Definition scripted (T : tree) (best : Z) (hint full : bool) (sc : nat -> option fault) : oracle :=
   {| o_best := fun n =>
@@ -381,7 +395,7 @@ Definition scripted (T : tree) (best : Z) (hint full : bool) (sc : nat -> option
        | Some FT => TErr (Transient, "scripted transient"%string)
        | Some FP => TErr (Persistent, "scripted persistent"%string)
        | f =>
-         let '(b, dh) := match f with Some (FS y dh _) => (y, dh) | _ => (best, 0) end in
+         let '(b, dh) := match f with Some (FS y dh _) => (y, dh) | Some (FF dh _) => (best, dh) | _ => (best, 0) end in
          match T b with
          | Some nd => TAns b (if hint then Some (Z.max 0 (n_height nd + dh)) else None)
          | None => TAns b None
@@ -392,7 +406,7 @@ Definition scripted (T : tree) (best : Z) (hint full : bool) (sc : nat -> option
        | Some FT => HErr (Transient, "scripted transient"%string)
        | Some FP => HErr (Persistent, "scripted persistent"%string)
        | f =>
-         let '(y, dh, dw) := match f with Some (FS y dh dw) => (y, dh, dw) | _ => (q, 0, 0) end in
+         let '(y, dh, dw) := match f with Some (FS y dh dw) => (y, dh, dw) | Some (FF dh dw) => (q, dh, dw) | _ => (q, 0, 0) end in
          match T y with
          | Some nd => HAns y (Z.max 0 (n_height nd + dh)) (Z.max 0 (n_cwork nd + dw))
          | None => HErr (Transient, "header not found"%string)
@@ -416,6 +430,19 @@ Definition scripted (T : tree) (best : Z) (hint full : bool) (sc : nat -> option
 Definition tree_of_list (l : list (Z * node)) : tree :=
   let m := fold_left (fun m kv => PositiveMap.add (Z.to_pos (fst kv)) (snd kv) m) l (PositiveMap.empty node) in
   fun x => if x <=? 0 then None else PositiveMap.find (Z.to_pos x) m.
+
+(** The same universe as a plain association list (first binding wins), with a boolean
+    well-formedness check that is evaluated on every generated tree of real headers. *)
+Definition tree_of_assoc (l : list (Z * node)) : tree :=
+  fun x => option_map snd (find (fun kv => fst kv =? x) l).
+Definition wf_listb (l : list (Z * node)) : bool :=
+  forallb (fun kv =>
+    let nd := snd kv in
+    (0 <=? n_height nd) &&
+    match tree_of_assoc l (n_prev nd) with
+    | None => true
+    | Some p => (n_height p =? n_height nd - 1) && (n_cwork nd =? n_cwork p + n_bwork nd)
+    end) l.
 
 Definition script_of_list (l : list (Z * fault)) : nat -> option fault :=
   let m := fold_left (fun m kv => PositiveMap.add (Z.to_pos (fst kv + 1)) (snd kv) m) l (PositiveMap.empty fault) in
